@@ -182,6 +182,7 @@ class PduFactory:
         """Retrieve the PDU directive type from a raw bytestream.
 
         :raises ValueError: Invalid directive type.
+        :raises BytesTooShortError: Passed data ends before the directive type field.
         :returns: None, if the PDU in the given bytestream is not a file directive, otherwise the
             directive.
         """
@@ -189,4 +190,6 @@ class PduFactory:
             return None
         else:
             header_len = AbstractPduBase.header_len_from_raw(data)
+            if len(data) < header_len + 1:
+                raise BytesTooShortError(header_len + 1, len(data))
             return DirectiveType(data[header_len])
